@@ -53,6 +53,14 @@ def shaped(g):
     for side, ptr in (("src", 1.0), ("dest", 1.0), ("src", 0.5), ("dest", 0.5), ("src", 1.0), ("dest", 1.0)):
         out.append(("embed-tagged-skip-" + side, g.pair(**dict(BASE, embeds=1.0, ptr_embed=ptr, depth2=0.7, deep=0.9, embed_tag=1.0, embed_tag_side=side,
                                                                embed_tag_kind="-", embed_tag_namesake=1.0, diamond=0.0, selfembed=0.0))))
+    # a promoted field called like an embedded pointer type that lies deeper elsewhere (repaired by 5a8522e): that pointer is
+    # neither allocated for the field nor part of its read guard
+    for side in ("src", "dest", "src", "dest"):
+        out.append(("field-like-embed-" + side, g.pair(**dict(BASE, n=(2, 4), embeds=0.5, field_like_embed=1.0, field_like_embed_side=side,
+                                                              diamond=0.0, selfembed=0.0, embed_tag=0.0))))
+    # arrays: identical arrays are assigned; slice -> array / *array is not mapped (repaired by bf4b467: it was converted and panicked)
+    out.append(("arrays", mapgen.mk_spec([mapgen.F("Key", mapgen.SL(mapgen.U8)), mapgen.F("Pair", mapgen.SL(mapgen.INT)), mapgen.F("Sum", mapgen.ARR4), mapgen.F("Name", mapgen.STR)],
+                                         [mapgen.F("Key", mapgen.ARR4), mapgen.F("Pair", mapgen.P(mapgen.ARR2I)), mapgen.F("Sum", mapgen.ARR4), mapgen.F("Name", mapgen.STR)])))
     # the same struct type embedded twice at different depths (seeded change C09-5): guards and allocations follow the SHALLOWER path
     for side in ("src", "dest", "src", "dest"):
         out.append(("embedded-twice-" + side, g.pair(**dict(BASE, embeds=1.0, ptr_embed=0.9, depth2=1.0, deep=0.95, diamond=1.0, diamond_side=side, selfembed=0.0))))
